@@ -30,7 +30,7 @@ fn report(case: &Case, prop: Prop, msg: &str) -> ! {
     let dir = std::env::var("VERIF_DIR").unwrap_or_else(|_| "/verif".into());
     let _ = std::fs::create_dir_all(format!("{dir}/replays"));
     let path = format!("{dir}/replays/{}-fuzz-{:016x}.case", prop.name(), case.hash64());
-    let _ = std::fs::write(&path, case.to_text(&[format!("violation: {msg}"), "found by the libFuzzer driver".into()]));
+    let _ = std::fs::write(&path, mmv::dispatch::to_text_named(&case, &[format!("violation: {msg}"), "found by the libFuzzer driver".into()]));
     eprintln!("violated: {msg}");
     eprintln!("VIOLATION property={} replay={}", prop.name(), path);
     std::process::abort();
